@@ -626,6 +626,23 @@ impl LogId {
     }
 }
 
+/// Verification hook (compiled only with `--cfg p2panda_p2panda_verif`): build a causal
+/// extensions value locally, the way an author would, instead of decoding it from bytes.
+#[cfg(p2panda_p2panda_verif)]
+#[doc(hidden)]
+impl Extensions {
+    pub fn verif_causal(log_id: Hash, timestamp: Timestamp, previous: HashSet<Hash>) -> Self {
+        Self {
+            version: EXTENSIONS_VERSION,
+            variant: ExtensionsVariantV1::Causal(CausalExtensions {
+                log_id: LogId(log_id),
+                timestamp,
+                previous,
+            }),
+        }
+    }
+}
+
 #[cfg(test)]
 mod tests {
     use std::collections::HashSet;
